@@ -86,6 +86,31 @@ impl Builtins {
         }
     }
 
+    /// The callback of a functional operator pops one value per parameter off
+    /// the shared stack, so it must take exactly the arguments we push for it.
+    fn check_callback_arity(
+        f: &super::Func,
+        expected: usize,
+        op: &str,
+        target: &str,
+        pos: &Position,
+    ) -> Result<(), Error> {
+        if f.bindings.len() != expected {
+            return Err(Error::new(
+                format!(
+                    "{} over a {} expects a function of {} argument(s) but got a function of {}",
+                    op,
+                    target,
+                    expected,
+                    f.bindings.len()
+                )
+                .into(),
+                pos.clone(),
+            ));
+        }
+        Ok(())
+    }
+
     fn get_file_as_string(&self, path: &str) -> Result<Rc<str>, Error> {
         let mut f = File::open(path)?;
         let mut contents = String::new();
@@ -447,6 +472,7 @@ impl Builtins {
 
         match *list.as_ref() {
             C(List(ref elems, ref elems_pos_list)) => {
+                Self::check_callback_arity(f, 1, "map", "list", &fptr_pos)?;
                 let mut result_elems = Vec::new();
                 let mut pos_elems = Vec::new();
                 for (counter, e) in elems.iter().enumerate() {
@@ -462,6 +488,7 @@ impl Builtins {
                 stack.push((Rc::new(C(List(result_elems, pos_elems))), list_pos));
             }
             C(Tuple(ref flds, ref flds_pos_list)) => {
+                Self::check_callback_arity(f, 2, "map", "tuple", &fptr_pos)?;
                 let mut new_fields = Vec::new();
                 let mut new_flds_pos_list = Vec::new();
                 for (counter, (name, val)) in flds.iter().enumerate() {
@@ -494,6 +521,7 @@ impl Builtins {
                 stack.push((Rc::new(C(Tuple(new_fields, new_flds_pos_list))), pos));
             }
             P(Str(ref s)) => {
+                Self::check_callback_arity(f, 1, "map", "string", &fptr_pos)?;
                 let mut buf = String::new();
                 for c in s.chars() {
                     stack.push((Rc::new(P(Str(c.to_string().into()))), list_pos.clone()));
@@ -553,6 +581,7 @@ impl Builtins {
 
         match *list.as_ref() {
             C(List(ref elems, ref elems_pos_list)) => {
+                Self::check_callback_arity(f, 1, "filter", "list", &fptr_pos)?;
                 let mut result_elems = Vec::new();
                 let mut pos_elems = Vec::new();
                 for (counter, e) in elems.iter().enumerate() {
@@ -577,6 +606,7 @@ impl Builtins {
                 stack.push((Rc::new(C(List(result_elems, pos_elems))), pos));
             }
             C(Tuple(ref flds, ref pos_list)) => {
+                Self::check_callback_arity(f, 2, "filter", "tuple", &fptr_pos)?;
                 let mut new_fields = Vec::new();
                 let mut new_flds_pos_list = Vec::new();
                 for (counter, (name, val)) in flds.iter().enumerate() {
@@ -601,6 +631,7 @@ impl Builtins {
                 stack.push((Rc::new(C(Tuple(new_fields, new_flds_pos_list))), pos));
             }
             P(Str(ref s)) => {
+                Self::check_callback_arity(f, 1, "filter", "string", &fptr_pos)?;
                 let mut buf = String::new();
                 for c in s.chars() {
                     stack.push((Rc::new(P(Str(c.to_string().into()))), list_pos.clone()));
@@ -701,6 +732,7 @@ impl Builtins {
 
         match *list.as_ref() {
             C(List(ref elems, ref elems_pos_list)) => {
+                Self::check_callback_arity(f, 2, "reduce", "list", &fptr_pos)?;
                 for (counter, e) in elems.iter().enumerate() {
                     let e_pos = elems_pos_list[counter].clone();
                     // push function arguments on the stack.
@@ -714,6 +746,7 @@ impl Builtins {
                 }
             }
             C(Tuple(ref _flds, ref flds_pos_list)) => {
+                Self::check_callback_arity(f, 3, "reduce", "tuple", &fptr_pos)?;
                 for (counter, (name, val)) in _flds.iter().enumerate() {
                     let name_pos = flds_pos_list[counter].0.clone();
                     let val_pos = flds_pos_list[counter].1.clone();
@@ -729,6 +762,7 @@ impl Builtins {
                 }
             }
             P(Str(ref s)) => {
+                Self::check_callback_arity(f, 2, "reduce", "string", &fptr_pos)?;
                 for c in s.chars() {
                     // push function arguments on the stack.
                     stack.push((acc.clone(), acc_pos.clone()));
